@@ -33,6 +33,7 @@ type HarnessEntry struct {
 	Stubs         map[string]*ssa.Function // entry-specific redirections
 	Float         string   // "" = E2 with relative-error bound, "mono" = monotonic anchors only
 	Doc           string
+	Preempt       int // preemption bound (0 = unbounded, all interleavings with sleep sets)
 	Recycle       int // restart solver + term context once this many float-axiom terms have accumulated (0 = default: after every run that used float axioms)
 }
 
